@@ -57,6 +57,10 @@ pub struct JoinTrace {
     /// left event i and right event i carry the same id
     #[serde(default)]
     pub shared_ids: bool,
+    /// one stream uses an id again for a later event with another stamp (a client-chosen id, round 20): the events of
+    /// a side whose stamp no earlier event of that side carries are all called "<side>x"
+    #[serde(default)]
+    pub reused_ids: bool,
 }
 
 pub struct JoinWorld;
@@ -74,9 +78,12 @@ thread_local! {
     /// the two streams label their events alike (JoinTrace::shared_ids): left event i and right event i carry
     /// the same id — an order number, a correlation id — and often the same stamp
     static SHARED_IDS: std::cell::Cell<bool> = const { std::cell::Cell::new(false) };
+    /// JoinTrace::reused_ids
+    static REUSED_IDS: std::cell::Cell<bool> = const { std::cell::Cell::new(false) };
 }
 
-fn mk_event(side: &str, idx: usize, e: &Ev) -> StreamEvent {
+fn mk_event(side: &str, idx: usize, all: &[Ev]) -> StreamEvent {
+    let e = &all[idx];
     let mut data = HashMap::new();
     if let Some(k) = e.key {
         data.insert("k".to_string(), Value::String(format!("key{k}")));
@@ -85,7 +92,28 @@ fn mk_event(side: &str, idx: usize, e: &Ev) -> StreamEvent {
     let mut ev = StreamEvent::with_timestamp("E", data, side, e.ts);
     // the id would otherwise derive from the real nanosecond clock
     ev.id = if SHARED_IDS.with(|s| s.get()) { format!("ev{idx}") } else { format!("{side}{idx}") };
+    if REUSED_IDS.with(|s| s.get()) {
+        // the oracle tells the events apart by a data field of its own; (id, stamp) stays unique within a side
+        ev.data.insert("i".to_string(), Value::Integer(idx as i64));
+        if !all[..idx].iter().any(|o| o.ts == e.ts) {
+            ev.id = format!("{side}x");
+        }
+    }
     ev
+}
+
+fn event_index(e: &StreamEvent, side: &str) -> Option<usize> {
+    if REUSED_IDS.with(|s| s.get()) {
+        let prefix = if SHARED_IDS.with(|s| s.get()) { "ev" } else { side };
+        if !(e.id.starts_with(prefix) || e.id == format!("{side}x")) {
+            return None;
+        }
+        return match e.data.get("i") {
+            Some(Value::Integer(i)) if *i >= 0 => Some(*i as usize),
+            _ => None,
+        };
+    }
+    parse_id(&e.id, side)
 }
 
 fn payload(e: &StreamEvent) -> i64 {
@@ -256,8 +284,8 @@ fn collect(out: Vec<JoinedEvent>, em: &mut Emitted, step: usize, site: &str) -> 
     for je in out {
         match (&je.left, &je.right) {
             (Some(l), Some(r)) => {
-                let li = parse_id(&l.id, "left");
-                let ri = parse_id(&r.id, "right");
+                let li = event_index(l, "left");
+                let ri = event_index(r, "right");
                 match (li, ri) {
                     (Some(li), Some(ri)) => {
                         *em.pairs.entry((li, ri)).or_insert(0) += 1;
@@ -314,7 +342,7 @@ fn run_schedule(
                 if li >= t.left.len() {
                     continue;
                 }
-                let e = mk_event("left", li, &t.left[li]);
+                let e = mk_event("left", li, &t.left);
                 if let (Some(o), Some(w)) = (obs.as_deref_mut(), last_wm) {
                     if (t.left[li].ts as i64) < w {
                         o.count("fault.late_arrival_below_watermark");
@@ -328,7 +356,7 @@ fn run_schedule(
                 if ri >= t.right.len() {
                     continue;
                 }
-                let e = mk_event("right", ri, &t.right[ri]);
+                let e = mk_event("right", ri, &t.right);
                 if let (Some(o), Some(w)) = (obs.as_deref_mut(), last_wm) {
                     if (t.right[ri].ts as i64) < w {
                         o.count("fault.late_arrival_below_watermark");
@@ -572,6 +600,7 @@ impl World for JoinWorld {
             schedule,
             alt_merges,
             shared_ids: rng.chance(1, 4),
+            reused_ids: rng.chance(1, 4),
         }
     }
 
@@ -581,6 +610,12 @@ impl World for JoinWorld {
 
     fn run(&self, _prop: &str, t: &JoinTrace, obs: &mut Obs) -> Result<(), Violation> {
         SHARED_IDS.with(|s| s.set(t.shared_ids));
+        // (the manager's mirrored join reports ids only: reuse is for the node driven directly)
+        let reused = t.reused_ids && !t.via_manager;
+        REUSED_IDS.with(|s| s.set(reused));
+        if reused {
+            obs.count("probe.a_stream_uses_an_id_again_with_another_stamp");
+        }
         if t.shared_ids {
             obs.count("probe.both_streams_label_their_events_alike");
         }
